@@ -475,8 +475,23 @@ func sigMatches(a, b *types.Signature) bool {
 	return true
 }
 
+func (p *Prog) ghostKeysOf(name string) []string {
+	fc := p.Contracts.Funcs[name]
+	if fc == nil {
+		return nil
+	}
+	var out []string
+	for _, g := range fc.GhostUpd {
+		out = append(out, "gh|"+g.Name)
+	}
+	return out
+}
+
 func (p *Prog) modCall(mi *modInfo, c *ssa.CallCommon) {
 	if c.IsInvoke() {
+		for _, k := range p.ghostKeysOf(p.relTypeString(c.Value.Type()) + "." + c.Method.Name()) {
+			mi.direct.Add(k)
+		}
 		iface, _ := c.Value.Type().Underlying().(*types.Interface)
 		if iface != nil {
 			mi.ifaceCalls = append(mi.ifaceCalls, ifaceCall{iface, c.Method.Name()})
@@ -507,7 +522,13 @@ func (p *Prog) modCall(mi *modInfo, c *ssa.CallCommon) {
 		f := unwrapSynthetic(v)
 		if f.Blocks != nil && p.isLocalFn(f) {
 			mi.callees[f] = true
+			for _, k := range p.ghostKeysOf(p.FuncName(f)) {
+				mi.direct.Add(k)
+			}
 			return
+		}
+		for _, k := range p.ghostKeysOf(externName(f)) {
+			mi.direct.Add(k)
 		}
 		p.modExtern(mi, f, c)
 		return
